@@ -25,8 +25,9 @@ func strictStep(fam string, l Line) bool {
 	case "linux":
 		// The answer of the marker grep is not enforced on Linux at all
 		// (known finding F5 of C06), so it is not a step of its own here.
+		// "echo $?" asks for the exit status of the change command before it.
 		return l.Text == "hostname -s" || l.Text == "iptables-save" || l.Text == "ip route show" ||
-			l.Text == "PS1=router#"
+			l.Text == "PS1=router#" || l.Text == "echo $?"
 	case "panos", "nsx":
 		return true
 	}
